@@ -279,6 +279,9 @@ type Opts struct {
 	// RetiredRevoker registers, in front of the provider's own revocation handler, a second shipped TokenRevocationHandler that
 	// serves a retired token family kept in a separate (empty) store: it knows none of the tokens of this world.
 	RetiredRevoker bool
+	// CoreStrategy, if set, supplies the token strategy (an integrator-written oauth2.CoreStrategy) instead of the shipped
+	// HMAC / JWT strategies.
+	CoreStrategy func(cfg *fosite.Config) oauth2.CoreStrategy
 }
 
 type World struct {
@@ -388,6 +391,9 @@ func New(o Opts) *World {
 	var core oauth2.CoreStrategy = w.HMAC
 	if o.JWTAccess {
 		core = compose.NewOAuth2JWTStrategy(keyGetter, w.HMAC, cfg)
+	}
+	if o.CoreStrategy != nil {
+		core = o.CoreStrategy(cfg)
 	}
 	w.Core = core
 	w.Dev = compose.NewDeviceStrategy(cfg)
